@@ -16,7 +16,7 @@ pub struct Verdict {
 
 /// All C13 oracle checks on one message value; returns failure keys.
 fn check_one<T: SwiftMessageBody + serde::de::DeserializeOwned + Clone>(
-    code: u32, j: &Value, plugins: &Plugins, with_plugin: bool, fails: &mut Vec<(String, Value)>,
+    code: u32, j: &Value, plugins: &Plugins, plugin_mode: u8, fails: &mut Vec<(String, Value)>,
 ) -> Option<Verdict> {
     let m: SwiftMessage<T> = serde_json::from_value(j.clone()).ok()?;
     let before = serde_json::to_value(&m).ok()?;
@@ -66,7 +66,8 @@ fn check_one<T: SwiftMessageBody + serde::de::DeserializeOwned + Clone>(
     if vr.is_valid != full.is_empty() || vr_codes != codes(&full) {
         fails.push((format!("adapter|SwiftMessage::validate|MT{code}"), json!({"type": code, "flag": vr.is_valid, "adapter_codes": vr_codes, "full": full, "json": j})));
     }
-    if with_plugin {
+    // plugin_mode: 0 never, 1 always, 2 whenever the message violates a rule
+    if plugin_mode == 1 || (plugin_mode == 2 && !full.is_empty()) {
         // wrapper + plugin verdicts on the serialised text, against the typed API on the same text
         let text = m.to_mt_message();
         if let Ok(tm) = SwiftParser::parse::<T>(&text) {
@@ -106,7 +107,7 @@ pub fn run(o: &Opts) -> Report {
         let code = r["witness"]["type"].as_u64().unwrap_or(0) as u32;
         let j = r["witness"]["json"].clone();
         let mut fails = Vec::new();
-        with_mt!(code, T => { check_one::<T>(code, &j, &plugins, true, &mut fails); }, {});
+        with_mt!(code, T => { check_one::<T>(code, &j, &plugins, 1, &mut fails); }, {});
         rep.case("replay", true);
         for (k, w) in fails {
             rep.fail(&k, w);
@@ -125,12 +126,35 @@ pub fn run(o: &Opts) -> Report {
                     rep.tally("draw-failed");
                     continue;
                 };
+                // random structural mutants, then (first draw) the systematic single mutants of the C04 stream and random
+                // pairs of them: every rule of every type is violated alone and together with a second one, and each
+                // violating message goes through all four entry points
+                let mut cases: Vec<(Vec<String>, Value, u8)> = Vec::new();
                 for k in 0..=muts {
                     let mut jj = j.clone();
                     let desc = if k == 0 { vec![] } else { let n = rng.range(1, 4); jsonmut::mutate(&mut jj, &mut rng, n) };
+                    cases.push((desc, jj, if k % 3 == 0 { 1 } else { 0 }));
+                }
+                if d == 0 {
+                    let singles = crate::c04::single_mutants(&j);
+                    for _ in 0..(if o.thorough() { 120 } else { 30 }).min(singles.len()) {
+                        let (d1, m1) = rng.pick(&singles).clone();
+                        let s2 = crate::c04::single_mutants(&m1);
+                        if !s2.is_empty() {
+                            let (d2, m2) = rng.pick(&s2).clone();
+                            cases.push((vec![d1, d2], m2, 2));
+                        }
+                    }
+                    for (d1, m1) in singles {
+                        cases.push((vec![d1], m1, 2));
+                    }
+                    for (d1, m1) in crate::c04::charge_mutants(code, &j) {
+                        cases.push((vec![d1], m1, 2));
+                    }
+                }
+                for (desc, jj, mode) in cases {
                     let mut fails = Vec::new();
-                    let with_plugin = k % 3 == 0;
-                    let v = with_mt!(code, T => check_one::<T>(code, &jj, &plugins, with_plugin, &mut fails), None);
+                    let v = with_mt!(code, T => check_one::<T>(code, &jj, &plugins, mode, &mut fails), None);
                     match v {
                         None => rep.tally("not-deserialisable"),
                         Some(v) => {
